@@ -316,6 +316,28 @@ func c07Extras() []*progCase {
 	for _, b := range bodies {
 		out = append(out, &progCase{P: &Program{Funcs: []*Func{setl}, Rules: []*Rule{{Kind: "BEGIN", Body: Blk(b...)}}}})
 	}
+	// a loop statement that is entered again, through recursion, while an outer execution of the same statement is still
+	// running: each execution has its own position
+	tree := func() Expr {
+		return &ObjLit{Keys: []string{"a", "b", "c"}, Vals: []Expr{&ObjLit{Keys: []string{"x", "y"}, Vals: []Expr{N("1"), N("2")}}, N("3"),
+			&ObjLit{Keys: []string{"z"}, Vals: []Expr{&ObjLit{Keys: []string{"q", "p"}, Vals: []Expr{N("4"), Arr_(N("5"), Arr_(N("6"), N("7")))}}}}}}
+	}
+	path := func(k Expr) Expr { return Bin("+", Bin("+", V("p"), S("/")), k) }
+	walk2 := &Func{Name: "walk", Params: []string{"o", "p"}, Body: Blk(&ForIn{V: "k", W: "v", Iter: V("o"), Body: Blk(
+		&If{Cond: Bin("||", &IsExpr{V("v"), "object"}, &IsExpr{V("v"), "array"}), Then: Blk(Ex(CallE(V("walk"), V("v"), path(V("k"))))), Else: Pr(path(V("k")), V("v"))})})}
+	walk1 := &Func{Name: "walk", Params: []string{"o", "p"}, Body: Blk(&ForIn{V: "k", Iter: V("o"), Body: Blk(
+		&If{Cond: &IsExpr{Idx(V("o"), V("k")), "object"}, Then: Blk(Ex(CallE(V("walk"), Idx(V("o"), V("k")), path(V("k"))))), Else: Pr(path(V("k")), Idx(V("o"), V("k")))})})}
+	count := &Func{Name: "count", Params: []string{"n"}, Body: Blk(Ex(Asg("=", V("i"), N("0"))), &While{Cond: Bin("<", V("i"), V("n")), Body: Blk(Ex(&Postfix{"++", V("i")}), Pr(S("level"), V("n"), S("i"), V("i")), &If{Cond: Bin(">", V("n"), N("1")), Then: Blk(Ex(CallE(V("count"), Bin("-", V("n"), N("1")))))})}, &Return{X: V("n")})}
+	cfor := &Func{Name: "cfor", Params: []string{"n"}, Body: Blk(&For{Init: Asg("=", V("j"), N("0")), Cond: Bin("<", V("j"), N("2")), Post: &Postfix{"++", V("j")}, Body: Blk(Pr(S("level"), V("n"), S("j"), V("j")), &If{Cond: Bin(">", V("n"), N("0")), Then: Blk(Ex(CallE(V("cfor"), Bin("-", V("n"), N("1")))))})})}
+	chars := &Func{Name: "chars", Params: []string{"s"}, Body: Blk(&ForIn{V: "ch", W: "off", Iter: V("s"), Body: Blk(Pr(V("s"), V("ch"), V("off")), &If{Cond: Bin(">", CallE(Mem(V("s"), "length")), N("1")), Then: Blk(Ex(CallE(V("chars"), V("ch"))))})})}
+	out = append(out,
+		&progCase{P: &Program{Funcs: []*Func{walk2}, Rules: []*Rule{{Kind: "BEGIN", Body: Blk(Ex(CallE(V("walk"), tree(), S(""))))}}}},
+		&progCase{P: &Program{Funcs: []*Func{walk1}, Rules: []*Rule{{Kind: "BEGIN", Body: Blk(Ex(CallE(V("walk"), tree(), S(""))))}}}},
+		&progCase{P: &Program{Funcs: []*Func{walk2}, Rules: []*Rule{{Body: Blk(Ex(CallE(V("walk"), V("$"), S("$"))))}}}, Files: []inFile{{"in.json", `[{"a":{"x":1,"y":2},"b":3,"c":4},{"m":[{"n":1},{"o":2}],"l":0}]`}}},
+		&progCase{P: &Program{Funcs: []*Func{count}, Rules: []*Rule{{Kind: "BEGIN", Body: Blk(Pr(CallE(V("count"), N("3"))))}}}},
+		&progCase{P: &Program{Funcs: []*Func{cfor}, Rules: []*Rule{{Kind: "BEGIN", Body: Blk(Ex(CallE(V("cfor"), N("2"))))}}}},
+		&progCase{P: &Program{Funcs: []*Func{chars}, Rules: []*Rule{{Kind: "BEGIN", Body: Blk(Ex(CallE(V("chars"), S("abé"))))}}}},
+	)
 	// the same over the input document
 	out = append(out, &progCase{P: &Program{Rules: []*Rule{{Kind: "BEGINFILE", Body: Blk(&ForIn{V: "v", W: "i", Iter: V("$"), Body: Blk(Pr(V("i"), V("v")), &If{Cond: lt3(), Then: Ex(Asg("=", Idx(V("$"), Bin("+", V("i"), N("1"))), Bin("*", V("v"), N("10"))))})})}, {Body: Blk(Pr(V("$")))}}},
 		Files: []inFile{{"in.json", `[1,2,3,4]`}}, Root: true})
@@ -333,7 +355,7 @@ func init() {
 		ID: "C07",
 		Rule: "all statement trees with <= N nodes over 25 constructs (trace print, if / if-else with true, false and data-driven conditions, while with a counting and a false condition, three-clause for, for-in over array / object / string with one and two variables and over the three empty iterables, two-statement block, break, continue, return, next, exit), " +
 			"each placed in a BEGIN rule, in the first of two pattern rules over [1,2], in a function called (inside a print list) from such a rule, and in the first of two pattern rules over a stream of an object, a number and a string; trees that use break/continue outside a loop or return outside a function are left out (they are syntax errors, C11); oracle: the model's exact output trace (DESIGN.md 3.11-3.13); " +
-			"a state is a (enclosing construct > construct) pair that was executed; non-trivial = such pairs; plus fixed programs for 12-key objects, unbraced dangling else, and 14 for-in loops whose body replaces an element not yet visited (directly, through an alias, in a callee, in the input document) with break / continue driven by the value that arrives",
+			"a state is a (enclosing construct > construct) pair that was executed; non-trivial = such pairs; plus fixed programs for 12-key objects, unbraced dangling else, 6 loops re-entered through recursion while an outer execution of the same statement is running (tree walks over objects / arrays / strings, while and for with shared counters), and 14 for-in loops whose body replaces an element not yet visited (directly, through an alias, in a callee, in the input document) with break / continue driven by the value that arrives",
 		Plan:        func(t fw.Tier) int { return c7NKinds * 4 },
 		Bound:       func(t fw.Tier) string { return fmt.Sprintf("all valid trees with <= %d nodes x 4 placements", size(t)) },
 		Assumptions: []string{"reference interpreter mc/refsem (statements, calls, rule schedule)", "object key order probed from the implementation once per key sequence (3.11)"},
